@@ -10,7 +10,7 @@ TrLeafT(ty, v) == [t |-> "leaf", ty |-> ty, v |-> v]
 TrNil        == [t |-> "nil"]
 TrStk(k, e)  == [t |-> "stk", k |-> k, form |-> "native", paren |-> FALSE, fold |-> FALSE, nspad |-> FALSE,
                  lonce |-> FALSE, sym |-> <<>>, delim |-> <<>>, enc |-> <<>>, neg |-> FALSE, fwd |-> FALSE,
-                 mtx |-> FALSE, cap |-> 0, nn |-> FALSE, e |-> e]      \* nn: no-nesting switched on AFTER the elements went in (no operator reads it: it concerns future pushes only)
+                 mtx |-> FALSE, cap |-> 0, nn |-> FALSE, er |-> FALSE, e |-> e]      \* nn: no-nesting switched on AFTER the elements went in; er: an error is recorded on the node (SetErr).  No operator reads either: neither concerns what is stored or reachable
 TrCnd(kw, op, ex) == [t |-> "cnd", form |-> "native", kw |-> kw, op |-> op, ex |-> ex, paren |-> FALSE,
                       nspad |-> FALSE, enc |-> <<>>]
 
@@ -37,6 +37,7 @@ KV    == TrCnd(<<"k">>, "Eq", TrLeaf(<<"v">>))                         \* k = v
 KGeS  == TrCnd(<<"k", "2">>, "Ge", TrStk("AND", <<X, Y>>))              \* k2 >= x AND y
 KNoOp == TrCnd(<<"k">>, "none", TrLeaf(<<"v">>))                       \* invalid: no operator
 KNoEx == TrCnd(<<"k">>, "Eq", TrNil)                                   \* invalid: no expression
+KBadOp == TrCnd(<<"k">>, "op9", TrLeaf(<<"v">>))                       \* invalid: a built-in operator outside Eq..Ge (all three parts present)
 
 \* every combination of the per-node options a setter can actually produce
 \* (SetSymbol is ignored by LIST, SetDelimiter by everything but LIST)
